@@ -63,7 +63,7 @@ def cases(tier, seed):
     base += designs.seq_cases(widths=(1, 4, 64, 65, 70) if tier != 'quick' else (1, 65))
     base += designs.expr_cases(20 if tier == 'quick' else 200, seed, n=7, maxw=8)
     base += designs.expr_cases(10 if tier == 'quick' else 80, seed + 9, n=6, maxw=70)
-    base += designs.misc_cases() + designs.carg_cases((3, 65))
+    base += designs.misc_cases() + designs.carg_cases((3,)) + [c for c in designs.carg_cases((65,)) if c['op'] != '*']
     for i, c in enumerate(base):
         wide = c['fam'] == 'OP' and c.get('wa', 0) > 8 or c.get('maxw', 0) > 8 or c.get('w', 0) > 8
         forms = ['pre']
